@@ -22,7 +22,7 @@ Proof. reflexivity. Qed.
 Fixpoint nsc (s : cstmt) : nat :=
   match s with
   | CLabeled _ s' => nsc s'
-  | CBlock l => 1 + nsc_list l
+  | CBlock l | CVBlock l => 1 + nsc_list l
   | CIf body els => 2 + nsc_list body + nsc_else els
   | CFor _ _ body => 2 + nsc_list body
   | CRange body => 1 + nsc_list body
@@ -40,7 +40,7 @@ with nsc_else (e : celse) : nat :=
 Fixpoint nfc (s : cstmt) : nat :=
   match s with
   | CLabeled _ s' => nfc s'
-  | CBlock l | CFor _ _ l | CRange l => nfc_list l
+  | CBlock l | CVBlock l | CFor _ _ l | CRange l => nfc_list l
   | CIf body els => nfc_list body + nfc_else els
   | CSwitch _ cs | CTSwitch cs | CSelect cs => nfc_clauses cs
   | CClosure _ body => 1 + nfc_list body
@@ -90,6 +90,8 @@ Lemma st_thenall0 : bstep S0 OThenAll = Some S0.
 Proof. cbn [bstep stk base]. replace (b - b) with 0 by lia. t. Qed.
 Lemma st_open : bstep S0 OOpen = Some (mkSt b b ns f l (mkFrame b sc f l :: sv) (S ns) nf).
 Proof. reflexivity. Qed.
+Lemma st_openv : bstep S0 OOpenV = Some (mkSt b b ns f l (mkFrame b sc f l :: sv) (S ns) nf).
+Proof. reflexivity. Qed.
 Lemma st_openfn : bstep S0 OOpenFn = Some (mkSt b b ns nf 0 (mkFrame b sc f l :: sv) (S ns) (S nf)).
 Proof. reflexivity. Qed.
 Lemma st_newlabel : bstep S0 ONewLabel = Some (mkSt b b sc f (S l) sv ns nf).
@@ -106,6 +108,9 @@ Section Closes.
 Variables (b sc f l b0 sc0 f0 l0 : nat) (sv : list frame) (ns nf : nat).
 Lemma st_close :
   bstep (mkSt b b sc f l (mkFrame b0 sc0 f0 l0 :: sv) ns nf) OClose = Some (mkSt b b0 sc0 f0 l sv ns nf).
+Proof. reflexivity. Qed.
+Lemma st_closev :
+  bstep (mkSt b b sc f l (mkFrame b0 sc0 f0 l0 :: sv) ns nf) OCloseV = Some (mkSt b b sc0 f l sv ns nf).
 Proof. reflexivity. Qed.
 Lemma st_closefn :
   bstep (mkSt b b sc f l (mkFrame b0 sc0 f0 l0 :: sv) ns nf) OCloseFn = Some (mkSt b b0 sc0 f0 l0 sv ns nf).
@@ -131,7 +136,7 @@ Ltac sx :=
   repeat (first [ rewrite run_app | rewrite run_cons | rewrite st_push0 | rewrite st_push1 | rewrite st_push2 | rewrite st_bin2 | rewrite st_bin3
                 | rewrite st_un1 | rewrite st_call0 | rewrite st_call1 | rewrite st_stmt0 | rewrite st_stmt1
                 | rewrite st_stmt2 | rewrite st_end1 | rewrite st_nop0 | rewrite st_thenpop
-                | rewrite st_thenall1 | rewrite st_thenall0 | rewrite st_open | rewrite st_openfn
+                | rewrite st_thenall1 | rewrite st_thenall0 | rewrite st_open | rewrite st_openv | rewrite st_closev | rewrite st_openfn
                 | rewrite st_thenopen | rewrite st_close | rewrite st_closefn | rewrite st_closefnpush
                 | rewrite st_else | rewrite st_close2 | rewrite st_newlabel | rewrite st_inlinestart | rewrite st_inlineend ];
           cbn [obind run app]).
@@ -193,6 +198,7 @@ Proof.
   - sx. apply fin_eq; lia.
   - (* CLabeled *) destruct placed; sx; apply H.
   - (* CBlock *) sx. ih H. sx. apply fin_eq; lia.
+  - (* CVBlock *) sx. ih H. sx. apply fin_eq; lia.
   - (* CIf *) unfold cond_ops. sx. ih H. rewrite run_app.
     match goal with |- context [run (compile_else els) (mkSt ?b1 ?b1 ?sc1 ?f1 ?l1 (mkFrame ?b0 ?sc0 ?f1 ?l1 :: ?sv1) ?ns1 ?nf1)] =>
       destruct (H0 b1 sc1 f1 l1 b0 sc0 sv1 ns1 nf1) as (sc' & R) end.
